@@ -41,31 +41,31 @@ theorem inv_step (s : State) (a : L) (s' : State) (h : Inv s) (hs : lts.step s a
   obtain ⟨lv, pn, cn, hn, ex, gt, tt, gc, tc, gd, td⟩ := h
   cases a with
   | call t op =>
-    cases op <;> simp only [lts, step] at hs <;> split at hs <;> (try split at hs) <;> simp at hs <;> subst hs
+    cases op <;> simp only [lts, step, stepCore] at hs <;> split at hs <;> (try split at hs) <;> simp at hs <;> subst hs
     all_goals oc_close
   | tau t alt =>
-    simp only [lts, step] at hs
+    simp only [lts, step, stepCore] at hs
     split at hs
     all_goals (try (repeat' split at hs)) <;> (try simp at hs) <;> (try subst hs) <;> (try oc_close)
     all_goals (unfold rcancel; split <;> oc_close)
   | ret t r =>
-    simp only [lts, step] at hs
+    simp only [lts, step, stepCore] at hs
     split at hs <;> (try split at hs) <;> simp at hs <;> subst hs
     all_goals oc_close
   | probe t p =>
-    cases p <;> simp only [lts, step] at hs <;> (repeat' split at hs) <;> simp at hs <;> subst hs <;>
+    cases p <;> simp only [lts, step, stepCore] at hs <;> (repeat' split at hs) <;> simp at hs <;> subst hs <;>
       exact ⟨lv, pn, cn, hn, ex, gt, tt, gc, tc, gd, td⟩
   | sys i alt =>
     match i with
     | 0 =>
-      simp only [lts, step] at hs
+      simp only [lts, step, stepCore] at hs
       split at hs
       all_goals (try (repeat' split at hs)) <;> (try simp at hs) <;> (try subst hs) <;> (try oc_close)
     | 1 =>
-      simp only [lts, step] at hs
+      simp only [lts, step, stepCore] at hs
       split at hs <;> simp at hs; subst hs; oc_close
     | j + 2 =>
-      simp only [lts, step] at hs
+      simp only [lts, step, stepCore] at hs
       split at hs
       · split at hs
         · (repeat' split at hs) <;> simp at hs <;> subst hs <;> oc_close
@@ -73,7 +73,7 @@ theorem inv_step (s : State) (a : L) (s' : State) (h : Inv s) (hs : lts.step s a
           unfold rcancel; split <;> oc_close
       · simp at hs
   | env e =>
-    cases e <;> simp only [lts, step] at hs <;> simp at hs <;> subst hs
+    cases e <;> simp only [lts, step, stepCore] at hs <;> simp at hs <;> subst hs
     all_goals oc_close
 
 theorem inv_reach (n g : Nat) (s : State) (h : Reach lts (init n g) s) : Inv s :=
